@@ -136,6 +136,13 @@ def build(rng, pattern, cell_cls, atol, n_copies=2, crossings=None, poses=None, 
     pels = list(pattern["elements"])
     need = G.diameter(ppos) + 2 * atol
     cell = make_cell(rng, cell_cls, need)
+    int_cell = 0
+    if cell_cls in ("ortho", "tri+-+", "tri-+-", "upper_tri") and rng.integers(4) == 0:
+        # a cell typed with whole numbers, handed over as nested list of ints or as an integer array
+        c2 = np.round(cell)
+        if G.perp_widths(c2).min() > need + 0.3 and abs(np.linalg.det(c2)) > 1:
+            cell = c2
+            int_cell = 1 + int(rng.integers(2))
     positions, elements, tags = [], [], []
     planted, measured, used_poses, decoy_groups = [], [], [], []
     crossings = list(crossings) if crossings is not None else [None] * n_copies
@@ -208,7 +215,8 @@ def build(rng, pattern, cell_cls, atol, n_copies=2, crossings=None, poses=None, 
     order = rng.permutation(n) if shuffle else np.arange(n)
     newidx = np.empty(n, dtype=int)
     newidx[order] = np.arange(n)
-    atoms = Atoms(elements=[elements[i] for i in order], positions=positions[order], cell=cell,
+    cell_given = cell if not int_cell else ([[int(v) for v in row] for row in cell] if int_cell == 1 else np.array(cell, dtype=int))
+    atoms = Atoms(elements=[elements[i] for i in order], positions=positions[order], cell=cell_given,
                   charges=[1000.0 + i / 64.0 for i in range(n)], groups=[int(x) for x in rng.integers(0, 3, n)])
     return {"atoms": atoms, "cell": cell, "planted": [[int(newidx[i]) for i in g] for g in planted], "crossings": measured, "poses": used_poses,
-            "decoy_groups": [(d, [int(newidx[i]) for i in g]) for d, g in decoy_groups], "tags": [tags[i] for i in order], "cell_cls": cell_cls}
+            "decoy_groups": [(d, [int(newidx[i]) for i in g]) for d, g in decoy_groups], "tags": [tags[i] for i in order], "cell_cls": cell_cls, "int_cell": int_cell}
